@@ -92,6 +92,30 @@ static int cb_log(const uscxml_ctx *c, const char *l, const char *e) {
 static int cb_raise(const uscxml_ctx *c, const char *e) { SEQ_PLAIN(e); return 0; }
 static int cb_send(const uscxml_ctx *c, const uscxml_elem_send *s) { SEQ_PLAIN(s->event); return 0; }
 static int cb_fe(const uscxml_ctx *c, const uscxml_elem_foreach *f) { return USCXML_ERR_FOREACH_DONE; }
+#if D_SEQ > 0
+static int seq_loop[D_SEQ + 1], fe_budget;
+static int cb_fe_init(const uscxml_ctx *c, const uscxml_elem_foreach *f) {
+  int n = seq_num(f->array);
+  if (!n) return USCXML_ERR_FOREACH_DONE;
+  if (seq_visit(n, 3)) { if (seq_loop[n]) seq_bad = "a <foreach> was initialised twice"; seq_loop[n] = 1; seq_expect = n; }
+  return USCXML_ERR_OK;
+}
+static int cb_fe_next(const uscxml_ctx *c, const uscxml_elem_foreach *f) {
+  int n = seq_num(f->array);
+  if (n < 1 || n > D_SEQ) return USCXML_ERR_FOREACH_DONE;
+  if (seq_expect != n || seq_loop[n] != 1) seq_bad = "foreach_next was not asked at the head of the loop";
+  if (fe_budget > 0 && next_bit()) { fe_budget--; seq_expect = d_seq_true[n]; return USCXML_ERR_OK; }
+  seq_loop[n] = 2;
+  return USCXML_ERR_FOREACH_DONE;
+}
+static int cb_fe_done(const uscxml_ctx *c, const uscxml_elem_foreach *f) {
+  int n = seq_num(f->array);
+  if (n < 1 || n > D_SEQ) return USCXML_ERR_OK;
+  if (seq_expect != n || seq_loop[n] != 2) seq_bad = "foreach_done was not called exactly when foreach_next reported the end of the array";
+  seq_loop[n] = 0; seq_expect = d_seq_false[n];
+  return USCXML_ERR_OK;
+}
+#endif
 static int cb_assign(const uscxml_ctx *c, const uscxml_elem_assign *a) { SEQ_PLAIN(a->location); return 0; }
 static int cb_init(const uscxml_ctx *c, const uscxml_elem_data *d) { return 0; }
 static int cb_cancel(const uscxml_ctx *c, const char *a, const char *b) { SEQ_PLAIN(a); return 0; }
@@ -106,7 +130,11 @@ static void init_ctx(uscxml_ctx *c) {
   c->machine = &USCXML_MACHINE;
   c->dequeue_internal = cb_deq_int; c->dequeue_external = cb_deq_ext; c->is_matched = cb_is_matched; c->is_true = cb_is_true;
   c->raise_done_event = cb_done; c->exec_content_log = cb_log; c->exec_content_raise = cb_raise; c->exec_content_send = cb_send;
+#if D_SEQ > 0
+  c->exec_content_foreach_init = cb_fe_init; c->exec_content_foreach_next = cb_fe_next; c->exec_content_foreach_done = cb_fe_done;
+#else
   c->exec_content_foreach_init = cb_fe; c->exec_content_foreach_next = cb_fe; c->exec_content_foreach_done = cb_fe;
+#endif
   c->exec_content_assign = cb_assign; c->exec_content_init = cb_init; c->exec_content_cancel = cb_cancel;
   c->exec_content_script = cb_script; c->invoke = cb_invoke;
 }
@@ -230,7 +258,7 @@ int main(int argc, char **argv) {
     for (answers = 0; answers < (1ULL << nbits); answers++) {
       uscxml_ctx c = pre; apos = 0; done_bad = 0; memset(done_set, 0, sizeof done_set); new_pass(); int_last_null = 0; order_bad = 0; memset(xl, 0, sizeof xl); memset(el, 0, sizeof el); memset(tl, 0, sizeof tl); log_bad = 0; log_phase = 0; log_last = 0;
 #if D_SEQ > 0
-      seq_expect = 0; seq_bad = 0; memset(seq_started, 0, sizeof seq_started);
+      seq_expect = 0; seq_bad = 0; memset(seq_started, 0, sizeof seq_started); memset(seq_loop, 0, sizeof seq_loop); fe_budget = 2;
 #endif
      
       int r = uscxml_step(&c);
